@@ -27,13 +27,13 @@ import (
 type Decision int
 
 const (
-	Proceed     Decision = iota
-	FailBefore           // transient error, no effect
-	FailAfter            // effect happens, error returned
-	CrashBefore          // client dies before the call lands
-	CrashAfter           // call lands, then the client dies
-	deadCall             // call of an already dead client
-	FailConsumed         // writes only: the request body is read completely, nothing lands, error returned
+	Proceed      Decision = iota
+	FailBefore            // transient error, no effect
+	FailAfter             // effect happens, error returned
+	CrashBefore           // client dies before the call lands
+	CrashAfter            // call lands, then the client dies
+	deadCall              // call of an already dead client
+	FailConsumed          // writes only: the request body is read completely, nothing lands, error returned
 )
 
 func (d Decision) String() string {
@@ -118,9 +118,11 @@ type ClientFn func(x *Exec, id int) error
 
 // Scenario describes a closed system for the explorer.
 type Scenario struct {
-	Name   string
-	Setup  func(x *Exec)
-	Phases [][]ClientFn // clients of phase k+1 start when every client of phase k is done or dead; ids are global, in order
+	Name string
+	// Prepare runs once before the exploration starts (outside any execution).
+	Prepare func(t *testing.T)
+	Setup   func(x *Exec)
+	Phases  [][]ClientFn // clients of phase k+1 start when every client of phase k is done or dead; ids are global, in order
 	// Faults returns the deviations offered on a parked call (each costs 1 fault).
 	Faults func(x *Exec, c *Call) []Decision
 	// Ticks are clock advances offered at every step (each costs 1 fault) while calls are parked.
@@ -603,6 +605,9 @@ func (e *Explorer) Explore(t *testing.T, rep *Report) {
 		e.Outcomes = map[string]int{}
 	}
 	start := time.Now()
+	if e.Sc.Prepare != nil {
+		e.Sc.Prepare(t)
+	}
 	// determinism proof: the default schedule twice, identical observations
 	a, b := RunExec(t, e.Sc, nil), RunExec(t, e.Sc, nil)
 	if strings.Join(a.Trace(), "\n") != strings.Join(b.Trace(), "\n") || a.outcome != b.outcome {
